@@ -91,23 +91,52 @@ class NpArr(Model):
 
 
 class SymSeq(Model):
-    """Sequence of symbolic length: (key, length: Num Int >= 0, elem: index Num -> value)."""
+    """Sequence of symbolic length: a core (key, core_len: Num Int >= 0, elem: index Num -> value) followed by a concrete
+    tail of explicitly appended elements.  `length` is the total length."""
 
-    def __init__(self, key, length, elem, facts=None):
+    def __init__(self, key, length, elem, facts=None, tail=None):
         self.key = key
-        self.length = length
+        self.core_len = length if isinstance(length, Num) else Num.const(length)
         self.elem = elem
         self.facts = facts  # optional: fn(I, index Num) -> list of z3 facts about elem(index)
+        self.tail = list(tail) if tail else []
 
-    def at(self, I, idx):
+    @property
+    def length(self):
+        return self.core_len + len(self.tail) if self.tail else self.core_len
+
+    def core_at(self, I, idx):
         v = self.elem(idx)
         if self.facts is not None:
             for f in self.facts(I, idx):
                 I.P.solver.add(f)
         return v
 
+    def at(self, I, idx):
+        if not self.tail:
+            return self.core_at(I, idx)
+        idx = I.to_num(idx)
+        if idx.depends_on(alg._BOUND):
+            return self.core_at(I, idx)
+        d = idx - self.core_len
+        if d.is_const():
+            k = d.const_value()
+            if k.denominator == 1 and 0 <= k < len(self.tail):
+                return self.tail[int(k)]
+            if k < 0 and self.core_len.is_const():
+                return self.core_at(I, idx)
+        zi, zc = I.P.z(idx), I.P.z(self.core_len)
+        if I.P.branch(SBool(zi < zc)):
+            return self.core_at(I, idx)
+        feas = [k for k in range(len(self.tail)) if I.P.feasible(zi == zc + k)]
+        if not feas:
+            raise PathInfeasible()
+        j = I.P.decide(len(feas)) if len(feas) > 1 else 0
+        I.P.solver.add(zi == zc + feas[j])
+        return self.tail[feas[j]]
+
     def m___len__(self, I):
-        return self.length
+        return _num_or_int(self.length)
 
     def getitem(self, I, idx):
         if isinstance(idx, slice):
@@ -118,10 +147,12 @@ class SymSeq(Model):
                 raise Unsupported("slice start")
             if k == 0:
                 return self
+            if self.tail:
+                raise Unsupported("slice of a symbolic sequence with appended elements")
             # python semantics: length max(n-k, 0); the sequences sliced here are proved to have n >= k
             I.P.check("slice-within-length[%s]" % I.site(None), I.P.z(self.length) >= k, "[%d:] of %s" % (k, self.key))
             outer = self
-            return SymSeq("%s[%d:]" % (self.key, k), self.length - k, lambda j: outer.at(I, j + k))
+            return SymSeq("%s[%d:]" % (self.key, k), self.core_len - k, lambda j: outer.core_at(I, j + k))
         idx = I.to_num(idx)
         zi, zn = I.P.z(idx), I.P.z(self.length)
         if idx.is_const() and idx.const_value() < 0:
@@ -131,60 +162,88 @@ class SymSeq(Model):
         return self.at(I, idx)
 
     def fresh_index(self, I, base="i"):
-        i = alg.sym(I.P.fresh_name(base + "@" + str(self.key)), "Int")
-        I.P.assume(z3.And(I.P.z(i) >= 0, I.P.z(i) < I.P.z(self.length)))
-        return i
+        """an arbitrary valid index (forks between the core and each appended element)"""
+        options = []
+        if I.P.feasible(I.P.z(self.core_len) > 0):
+            options.append("core")
+        options += list(range(len(self.tail)))
+        if not options:
+            raise PathInfeasible()
+        o = options[I.P.decide(len(options)) if len(options) > 1 else 0]
+        if o == "core":
+            i = alg.sym(I.P.fresh_name(base + "@" + str(self.key)), "Int")
+            I.P.assume(z3.And(I.P.z(i) >= 0, I.P.z(i) < I.P.z(self.core_len)))
+            return i
+        return _num_or_int(self.core_len + o) if not isinstance(_num_or_int(self.core_len + o), int) else Num.const(_num_or_int(self.core_len + o))
 
     def map(self, I, key, f):
-        return SymSeq(key, self.length, lambda idx: f(self.at(I, idx)))
+        return SymSeq(key, self.core_len, lambda idx: f(self.core_at(I, idx)), tail=[f(x) for x in self.tail])
 
     def comprehension(self, I, node, gen, fr):
         from pyvc.interp import Frame
 
-        if gen.ifs:
-            raise Unsupported("filtered comprehension over a symbolic sequence")
         outer = self
 
-        def elem(idx):
+        def on(value):
             sub = Frame(fr.module, fr.func, fr.cls)
             sub.vars = dict(fr.vars)
             sub.self_obj = fr.self_obj
-            I.assign_target(gen.target, outer.at(I, idx), sub)
+            I.assign_target(gen.target, value, sub)
+            for cond in gen.ifs:
+                n = len(I.P.trail)
+                if not I.P.branch(I.truth(I.eval(cond, sub))) or len(I.P.trail) != n:
+                    raise Unsupported("comprehension filter over a symbolic sequence that is not decided by the element facts")
             return I.eval(node.elt, sub)
 
-        return SymSeq("[%s for %s]" % (ast.unparse(node.elt)[:40], self.key), self.length, elem)
+        return SymSeq("[%s for %s]" % (ast.unparse(node.elt)[:40], self.key), self.core_len, lambda idx: on(outer.core_at(I, idx)),
+                      tail=[on(x) for x in self.tail])
 
     def binop(self, I, op, other, swapped):
         if isinstance(other, SymSeq):
-            if other.length.key() != self.length.key():
-                raise Unsupported("zip of symbolic sequences of different length")
-            f = (lambda idx: I.binop(op, other.at(I, idx), self.at(I, idx))) if swapped else (lambda idx: I.binop(op, self.at(I, idx), other.at(I, idx)))
-            return SymSeq("(%s%s%s)" % (self.key, type(op).__name__, other.key), self.length, f)
+            if other.core_len.key() != self.core_len.key() or len(other.tail) != len(self.tail):
+                raise Unsupported("element-wise operation on symbolic sequences of different length")
+            if swapped:
+                f = lambda a, b: I.binop(op, b, a)  # noqa
+            else:
+                f = lambda a, b: I.binop(op, a, b)  # noqa
+            return SymSeq("(%s%s%s)" % (self.key, type(op).__name__, other.key), self.core_len,
+                          lambda idx: f(self.core_at(I, idx), other.core_at(I, idx)), tail=[f(a, b) for a, b in zip(self.tail, other.tail)])
+        if isinstance(other, (list, tuple)) and isinstance(op, ast.Add) and not swapped:
+            return SymSeq(self.key + "+list", self.core_len, self.elem, self.facts, tail=self.tail + list(other))
         if swapped:
-            return SymSeq("(c%s%s)" % (type(op).__name__, self.key), self.length, lambda idx: I.binop(op, other, self.at(I, idx)))
-        return SymSeq("(%s%sc)" % (self.key, type(op).__name__), self.length, lambda idx: I.binop(op, self.at(I, idx), other))
+            return self.map(I, "(c%s%s)" % (type(op).__name__, self.key), lambda v: I.binop(op, other, v))
+        return self.map(I, "(%s%sc)" % (self.key, type(op).__name__), lambda v: I.binop(op, v, other))
 
     def iop(self, I, op, other):
-        old = SymSeq(self.key, self.length, self.elem, self.facts)
+        old = SymSeq(self.key, self.core_len, self.elem, self.facts, self.tail)
         r = old.binop(I, op, other, False)
-        self.key, self.elem, self.facts = r.key, r.elem, None
+        self.key, self.elem, self.facts, self.tail = r.key, r.elem, None, r.tail
         return self
 
     def m_sum(self, I, axis=None):
         return seq_sum(I, self)
 
     def m_copy(self, I):
-        return SymSeq(self.key, self.length, self.elem, self.facts)
+        return SymSeq(self.key, self.core_len, self.elem, self.facts, self.tail)
+
+    def m_append(self, I, x):
+        self.tail.append(x)
+
+    def m_extend(self, I, xs):
+        self.tail.extend(I.iterate(xs))
 
     def contains(self, I, item):
-        # membership is an uninterpreted predicate keyed by the sequence; elements drawn from the sequence carry it
+        # membership in the core is an uninterpreted predicate keyed by the sequence; elements drawn from it carry it
         f = z3.Function("member[%s]" % self.key, z3.RealSort(), z3.BoolSort())
         it = I.P.z(I.to_num(item)) if not isinstance(item, (str, type(None))) else None
         if it is None:
             return False
         if z3.is_int(it):
             it = z3.ToReal(it)
-        return SBool(f(it))
+        acc = SBool(f(it))
+        for x in self.tail:
+            acc = I.b_or(acc, I.equal(x, item))
+        return acc
 
     def for_loop(self, I, node, fr):
         reg = I.registry
@@ -202,31 +261,34 @@ class SymSeq(Model):
 
 def seq_sum(I, seq):
     i = alg.bound_index()
-    body = I.to_num(seq.at(I, i))
-    return _num_or_int(alg.bigsum(str(seq.key), seq.length, body))
+    total = alg.bigsum(str(seq.key), seq.core_len, I.to_num(seq.core_at(I, i)))
+    for x in seq.tail:
+        total = total + I.to_num(x)
+    return _num_or_int(total)
 
 
 def summarise_loop(I, seq, node, fr):
     """`for x in seq: acc += f(x); lst.append(g(x))` over a symbolic-length sequence: the body is executed once on a
-    generic element; numeric accumulators become big sums, appended lists become mapped sequences.  Anything else in the
-    body (control flow that escapes, stores that are not accumulations) is outside the subset -> Unsupported."""
-    from pyvc.interp import Frame, _Break, _Continue
+    generic core element; numeric accumulators become big sums, appended lists become mapped sequences; explicitly
+    appended tail elements are then executed concretely.  Anything else in the body (escaping control flow, branching on
+    the element, stores that are not accumulations) is outside the subset -> Unsupported."""
+    from pyvc.interp import _Break, _Continue
 
     i = alg.bound_index()
     before = dict(fr.vars)
-    # snapshot list lengths so that appends can be recognised
     lists = {k: (v, len(v)) for k, v in before.items() if isinstance(v, list)}
-    sub = fr
-    I.assign_target(node.target, seq.at(I, i), sub)
+    tname = node.target.id if isinstance(node.target, ast.Name) else None
+    I.assign_target(node.target, seq.core_at(I, i), fr)
     trail_before = len(I.P.trail)
     try:
-        I.exec_block(node.body, sub)
+        I.exec_block(node.body, fr)
     except (_Break, _Continue):
         raise Unsupported("break/continue in a summarised loop")
     if len(I.P.trail) != trail_before:
-        raise Unsupported("branching on the loop element inside a summarised loop (needs an invariant)")
+        raise Unsupported("branching on the loop element inside a summarised loop (needs a loop contract)")
+    target_names = set(n.id for n in ast.walk(node.target) if isinstance(n, ast.Name))
     for k, v in list(fr.vars.items()):
-        if k in (node.target.id if isinstance(node.target, ast.Name) else ()):
+        if k in target_names:
             continue
         old = before.get(k, None)
         if isinstance(v, list) and k in lists and v is lists[k][0]:
@@ -238,12 +300,11 @@ def summarise_loop(I, seq, node, fr):
                 raise Unsupported("summarised loop appends to a non-empty list or more than once per iteration")
             expr = added[0]
             del v[n0:]
-            captured = expr
 
-            def elem(idx, captured=captured):
+            def elem(idx, captured=expr):
                 return _subst_index(captured, i, idx)
 
-            fr.vars[k] = SymSeq("map[%s|%s]" % (seq.key, _val_key(expr)), seq.length, elem)
+            fr.vars[k] = SymSeq("map[%s|%s]" % (seq.key, _val_key(expr)), seq.core_len, elem)
             continue
         if v is old:
             continue
@@ -251,18 +312,24 @@ def summarise_loop(I, seq, node, fr):
             delta = I.to_num(v) - I.to_num(old)
             if delta.is_zero():
                 continue
-            if delta.depends_on(alg._BOUND) or True:
-                # accumulation: new = old + delta(i)  (delta must not depend on the accumulator itself)
-                if isinstance(old, Num) and any(a in delta.all_atoms() for a in old.atoms() if False):
-                    raise Unsupported("non-linear accumulation")
-                fr.vars[k] = _num_or_int(I.to_num(old) + alg.bigsum(str(seq.key), seq.length, delta))
+            fr.vars[k] = _num_or_int(I.to_num(old) + alg.bigsum(str(seq.key), seq.core_len, delta))
             continue
-        if k not in before and isinstance(v, (Num, int, float, Fraction, str, type(None), bool, Obj, Model, tuple)):
-            # loop-local temporary: not observable after the loop unless read (left as the generic element's value)
+        if k not in before:
+            # loop-local temporary: dropped (a later read fails as an unresolved name rather than seeing a stale value)
+            del fr.vars[k]
             continue
         raise Unsupported("summarised loop modifies %s in an unsupported way" % k)
-    if isinstance(node.target, ast.Name):
-        fr.vars.pop(node.target.id, None)
+    for tn in target_names:
+        fr.vars.pop(tn, None)
+    # explicitly appended elements: ordinary execution
+    for x in seq.tail:
+        I.assign_target(node.target, x, fr)
+        try:
+            I.exec_block(node.body, fr)
+        except _Continue:
+            continue
+        except _Break:
+            break
 
 
 def _subst_index(v, i, idx):
@@ -270,12 +337,16 @@ def _subst_index(v, i, idx):
         return _num_or_int(v.subst({list(i.atoms())[0]: idx}))
     if isinstance(v, tuple):
         return tuple(_subst_index(x, i, idx) for x in v)
+    if isinstance(v, Model) and hasattr(v, "subst_index"):
+        return v.subst_index(lambda x: _subst_index(x, i, idx))
     return v
 
 
 def _val_key(v):
     if isinstance(v, Num):
         return v.key()
+    if isinstance(v, Model) and hasattr(v, "val_key"):
+        return v.val_key()
     return repr(v)
 
 
